@@ -34,9 +34,16 @@ const (
 
 var fineFiles = map[string]bool{}
 
+// covMode and covSites: see insertHits.
+var (
+	covMode  bool
+	covSites []string
+)
+
 func main() {
 	out := flag.String("out", "", "output directory")
 	fine := flag.String("fine", "", "comma separated file suffixes (e.g. bus/signal.go) to instrument at statement level")
+	flag.BoolVar(&covMode, "cov", false, "development aid: count the executions of every block (vrt.Hit) and list the sites in DIR/cov-sites.txt")
 	flag.Parse()
 	if *out == "" || flag.NArg() == 0 {
 		fmt.Fprintln(os.Stderr, "usage: vinstr -out DIR [-fine files] patterns...")
@@ -94,6 +101,9 @@ func main() {
 		}
 	}
 	js, _ := json.MarshalIndent(map[string]interface{}{"Replace": overlay}, "", " ")
+	if covMode {
+		os.WriteFile(filepath.Join(*out, "cov-sites.txt"), []byte(strings.Join(covSites, "\n")+"\n"), 0o644)
+	}
 	if err := os.WriteFile(filepath.Join(*out, "overlay.json"), js, 0o644); err != nil {
 		fatal(err)
 	}
@@ -257,6 +267,9 @@ func (rw *rewriter) rewrite() ([]byte, error) {
 	astutil.Apply(rw.file, rw.pre, rw.post)
 	if rw.err != nil {
 		return nil, rw.err
+	}
+	if covMode && strings.Contains(rw.path, "/bus/") && !strings.Contains(rw.path, "/verif/") {
+		rw.insertHits()
 	}
 	if rw.fine {
 		rw.insertYields()
@@ -707,6 +720,50 @@ func (rw *rewriter) rewriteSelect(n *ast.SelectStmt) ast.Stmt {
 	sw.Tag = &ast.CallExpr{Fun: rw.vrt("Select"), Args: append([]ast.Expr{ast.NewIdent(hd)}, caseVars...)}
 	stmts = append(stmts, sw)
 	return &ast.BlockStmt{List: stmts}
+}
+
+// insertHits (development aid, -cov) puts an execution counter at the start of
+// every block and clause that comes from the original source, so that
+// tools/coverage.sh can list the code no scenario of a property ever runs.
+func (rw *rewriter) insertHits() {
+	rel := rw.path[strings.Index(rw.path, "/bus/")+1:]
+	fn := ""
+	hit := func(pos token.Pos, what string) ast.Stmt {
+		id := fmt.Sprintf("%s:%d %s %s", rel, rw.fset.Position(pos).Line, fn, what)
+		covSites = append(covSites, id)
+		return &ast.ExprStmt{X: &ast.CallExpr{Fun: rw.vrt("Hit"), Args: []ast.Expr{&ast.BasicLit{Kind: token.STRING, Value: strconv.Quote(id)}}}}
+	}
+	skip := map[*ast.BlockStmt]bool{}
+	ast.Inspect(rw.file, func(n ast.Node) bool {
+		switch x := n.(type) {
+		case *ast.FuncDecl:
+			fn = x.Name.Name
+			if x.Recv != nil && len(x.Recv.List) == 1 {
+				var b bytes.Buffer
+				printer.Fprint(&b, token.NewFileSet(), x.Recv.List[0].Type)
+				fn = "(" + b.String() + ")." + fn
+			}
+		case *ast.SwitchStmt:
+			skip[x.Body] = true
+		case *ast.TypeSwitchStmt:
+			skip[x.Body] = true
+		case *ast.SelectStmt:
+			skip[x.Body] = true
+		case *ast.BlockStmt:
+			if !skip[x] && x.Lbrace.IsValid() && rw.fset.Position(x.Lbrace).Line > 0 {
+				x.List = append([]ast.Stmt{hit(x.Lbrace, "block")}, x.List...)
+			}
+		case *ast.CaseClause:
+			if x.Case.IsValid() && rw.fset.Position(x.Case).Line > 0 {
+				x.Body = append([]ast.Stmt{hit(x.Case, "case")}, x.Body...)
+			}
+		case *ast.CommClause:
+			if x.Case.IsValid() && rw.fset.Position(x.Case).Line > 0 {
+				x.Body = append([]ast.Stmt{hit(x.Case, "select-case")}, x.Body...)
+			}
+		}
+		return true
+	})
 }
 
 // insertYields puts a fine-grained scheduling point before every statement of
